@@ -384,6 +384,13 @@ func (ms *Modules) Process() []error {
 	// the errors.
 	for _, m := range mods {
 		ToEntry(m).Augment(true)
+	}
+	// Merging an augment records the errors of its body, and any name
+	// collision, on the target, which may belong to any module.
+	for _, m := range ms.Modules {
+		errs = append(errs, ToEntry(m).GetErrors()...)
+	}
+	for _, m := range ms.SubModules {
 		errs = append(errs, ToEntry(m).GetErrors()...)
 	}
 
